@@ -167,7 +167,7 @@ func sortedKeysB(m map[string]bool) []string {
 }
 
 var c14Names = []string{"a-b", "a_b", "aB", "AB", "a b", "ab", "Ab", "A-B", "1", "_1", "A1", "a1", "+", "_", "*", "Wildcard", "Blank", "Undefined", "AB_2", "a-b_2", "ab_2", "type", "func",
-	"日本", "A日本", "ß", "Aß", "id", "ID", "Id", "a.b", "aʰb"}
+	"日本", "A日本", "ß", "Aß", "id", "ID", "Id", "a.b", "aʰb", "a%d", "100%"}
 
 // names whose tags cannot carry them (tag syntax / encoding/json option syntax): listed finding
 var c14TagBreaking = []string{`qu"ote`, "back`tick", `back\slash`, "new\nline", "com,ma", "-", "", "a²b", "x́"}
